@@ -9,6 +9,18 @@ lo,hi=(int(x) for x in sys.argv[3].split('-')) if len(sys.argv)>3 else (0,10**9)
 base=Repo.load_sources('/repo')
 muts=[(d,r,n) for d,r,n in ((d,rel,n) for d,n in ms.mutants_of(rel, base[rel])) if lo<=int(re.match(r'\S+:(\d+)',d).group(1))<=hi]
 print(len(muts),'mutants',flush=True)
+BASE_IDS = {}
+
+
+def _base_ids(props):
+    from ssjlint.__main__ import run_property
+    from ssjlint.flow import clear_cache
+    for p in props:
+        clear_cache()
+        ctx, err = run_property(p, 'quick', repo=Repo(base))
+        BASE_IDS[p] = set(f.ident for f in ctx.findings)
+
+
 def work(a):
     d,r,n=a
     from ssjlint.__main__ import run_property
@@ -21,10 +33,11 @@ def work(a):
             ctx,err=run_property(p,'quick',repo=Repo(src))
         except Exception as e:
             errs.append(p); continue
-        new=[f for f in ctx.findings if not getattr(f,'known',False)]
+        new=[f for f in ctx.findings if f.ident not in BASE_IDS.get(p, ())]
         if new: fired.append(p+':'+new[0].rule)
         elif err: errs.append(p)
     return d,fired,errs
+_base_ids(props)
 with multiprocessing.get_context('fork').Pool(16) as pool:
     res=pool.map(work,muts,chunksize=2)
 sil=[d for d,f,e in res if not f and not e]
